@@ -219,6 +219,9 @@ func runClientBehaviour(steps []cStep, res *Result, dev bool) (string, string) {
 			m.SetTopic([]byte("t/app"))
 			m.SetPayload(brokerPayload("x"))
 			m.SetQoS(byte(a.Q))
+			if a.Dup {
+				m.SetDup(true) // the application re-sends a message of an earlier connection
+			}
 			var d string
 			var oc service.OnCompleteFunc = r.onComplete(a.R)
 			if a.Cb != nil && !*a.Cb {
